@@ -61,3 +61,14 @@ class StatefulThing(wiring.Component):
             terms.append(res)
         m.d.comb += self.bus.eq(reduce(or_, terms))
         return m
+
+
+# a memo keyed by the text of the object it describes: two classes of the same name share the entry
+_widths = {}
+
+
+def _width_of(shape):
+    key = repr(shape)
+    if key not in _widths:
+        _widths[key] = Shape.cast(shape).width
+    return _widths[key]
